@@ -403,9 +403,8 @@ func (lalr *LALR1) TrySplitTable(tab [][]int) error {
 		//nNonTerminals := len(lalr.G.VnSet) - 1 // skip the start symbol
 		for state, v := range tab {
 			for lookahead, val := range v {
-				if off[state]+lookahead < 0 {
-					res = lalr.GenErrorCode()
-				} else if off[state]+lookahead >= len(check) ||
+				if off[state]+lookahead < 0 ||
+					off[state]+lookahead >= len(check) ||
 					check[off[state]+lookahead] != state {
 					if lookahead > nTerminals {
 						res = gtdef[lookahead-nTerminals-1]
